@@ -33,7 +33,7 @@ let () =
        with End_of_file -> ());
       print_string (Buffer.contents out)
   | "check" ->
-      (* driver check <prop> <cases> <impl-results> : run the verified checkers
-         of property <prop> on the implementation's outputs *)
-      Checks.main Sys.argv.(2) Sys.argv.(3) Sys.argv.(4)
+      (* driver check <cases> <impl-results> : run the verified checkers on the
+         implementation's outputs *)
+      Checks.main Sys.argv.(2) Sys.argv.(3)
   | _ -> failwith "usage: driver model|check ..."
